@@ -35,6 +35,11 @@ def build_module(mn, mx, imported=False):
     m.add_func([I32, I32], [I32], [], [('local.get', 0), ('local.get', 1), ('i64.const', 0), ('memory.atomic.wait32', 2, 0)], export='wait0')
     m.add_func([I32, I32], [I32], [], [('local.get', 0), ('local.get', 1), ('memory.atomic.notify', 2, 0)], export='notify')
     m.add_func([I32, I32], [I32], [], [('local.get', 0), ('local.get', 1), ('i32.atomic.rmw.add', 2, 0)], export='aadd')
+    # bulk memory from a passive segment, and an active segment (applied again for every child instance): both touch the memory
+    # through the descriptor while other threads grow it
+    m.datas.append(dict(mode='active', offset=[('i32.const', 48)], bytes=b'\xd1\xd2\xd3\xd4'))
+    m.datas.append(dict(mode='passive', bytes=bytes(range(0x41, 0x51))))
+    m.add_func([I32, I32], [], [], [('local.get', 0), ('i32.const', 0), ('local.get', 1), ('memory.init', 1)], export='init')
     return m
 
 
@@ -122,6 +127,9 @@ def check_history(text):
             V.append(('C18:concurrent-wait-result', 'thread %d: memory.atomic.wait32 with timeout 0 on its private cell (%s expected value) returned %d' % (o['t'], 'equal' if o['arg'] else 'different', o['res'])))
         if o['op'] == 8 and o['res'] != 0:
             V.append(('C18:concurrent-notify-result', 'thread %d: notify on a cell nobody waits on woke %d' % (o['t'], o['res'])))
+    for o in ops:
+        if o['op'] == 10 and o['res'] != o['arg']:
+            V.append(('C18:concurrent-memory-init', 'thread %d: memory.init of 8 segment bytes into its private cells read back %#x, expected %#x' % (o['t'], o['res'], o['arg'])))
     if adds:
         olds_ = sorted(o['res'] for o in adds)
         if olds_ != list(range(len(adds))) or counter != len(adds):
